@@ -28,10 +28,10 @@ const (
 )
 
 type leafInfo struct {
-	Sort string
-	Kind leafKind
-	Path string
-	W    int // bit width for kBV
+	Sort   string
+	Kind   leafKind
+	Path   string
+	W      int // bit width for kBV
 	Signed bool
 }
 
@@ -326,23 +326,23 @@ func zeroOfSortName(sort string) string {
 
 // LVal is a memory location: object field(s), slice element, or global.
 type LVal struct {
-	Space byte   // 'O' object (incl. globals, cells), 'E' slice element
-	TK    string // type key of the object / element type
-	Leaf  int    // first leaf within the object/element layout
-	Typ   types.Type
-	Ref   string   // object ref or slice base
-	Idx   string   // absolute element index (E space)
-	Arr   []string // indices into lifted leaves (array-typed fields), outermost first
-	ObjT  types.Type
-	Lim   string // E space: absolute index limit (off+len) of the slice the pointer was taken from
+	Space    byte   // 'O' object (incl. globals, cells), 'E' slice element
+	TK       string // type key of the object / element type
+	Leaf     int    // first leaf within the object/element layout
+	Typ      types.Type
+	Ref      string   // object ref or slice base
+	Idx      string   // absolute element index (E space)
+	Arr      []string // indices into lifted leaves (array-typed fields), outermost first
+	ObjT     types.Type
+	Lim      string // E space: absolute index limit (off+len) of the slice the pointer was taken from
 	ByteView bool   // *uint8 view into an element of a []uint64 (little-endian)
-	BOff  string // byte offset of the view relative to element Idx
+	BOff     string // byte offset of the view relative to element Idx
 }
 
 type SV struct {
 	L    []string
-	LV   *LVal   // set for pointer values with statically known target
-	Fn   *ssaFn  // closures
+	LV   *LVal  // set for pointer values with statically known target
+	Fn   *ssaFn // closures
 	Bind []SV
 	Box  *SV // interface value boxing a non-pointer value
 	BoxT types.Type
@@ -458,7 +458,7 @@ func eq(a, b string) string {
 	return "(= " + a + " " + b + ")"
 }
 
-func sel(a, i string) string { return "(select " + a + " " + i + ")" }
+func sel(a, i string) string    { return "(select " + a + " " + i + ")" }
 func sto(a, i, v string) string { return "(store " + a + " " + i + " " + v + ")" }
 
 func quoteSym(s string) string {
